@@ -1,9 +1,13 @@
 use crate::common::run::Run;
+pub mod c04;
 pub mod c05;
+pub mod c12;
 
 pub fn lookup(id: &str) -> Option<fn(&Run)> {
     Some(match id {
+        "C04" => c04::run,
         "C05" => c05::run,
+        "C12" => c12::run,
         _ => return None,
     })
 }
